@@ -1,5 +1,6 @@
 CONSTANTS IndexerPeriod = "next" Horizons = {2} Betas <- BetasQuick Curvatures = {1} WithStochastic = {FALSE} Mask0Set <- QuickMask0
-SPECIFICATION Spec
+SPECIFICATION FairSpec
+PROPERTY AllPeriodsSolved
 INVARIANT ImplMatchesDecl
 INVARIANT InfeasibleIffNegInf
 INVARIANT ShapeIsLayout
